@@ -37,29 +37,18 @@ fn gen(case_seed: u64, case: u64, _tier: Tier) -> Plan {
 }
 
 fn only_lock_touched(ops: &[Op]) -> Result<(), String> {
-	// inode of LOCK: the Create/Truncate/Write ops on the lock file; anything with a path
-	// outside LOCK, or a write to another inode, is "touching the data"
-	let mut lock_inos: Vec<u64> = Vec::new();
+	// a refused open may create / truncate / write / sync the LOCK file and nothing else:
+	// every logged operation is mapped back to its path through the interposer's inode table
 	for op in ops {
-		match op {
-			Op::Create { path, ino } if path == "LOCK" => lock_inos.push(*ino),
-			_ => {}
-		}
-	}
-	for op in ops {
-		match op {
-			Op::Marker { .. } | Op::FsyncDir { .. } => {}
-			Op::Create { path, .. } if path == "LOCK" => {}
-			Op::Truncate { .. } | Op::Write { .. } | Op::Fsync { .. } => {
-				// inode-based: we cannot map back without the session table; a refused open
-				// performs at most a truncate of LOCK before the lock attempt
-				if let Op::Write { data, .. } = op {
-					if data.len() > 16 {
-						return Err(format!("a refused open wrote {} bytes", data.len()));
-					}
-				}
-			}
+		let ino = match op {
+			Op::Marker { .. } => continue,
+			Op::Create { path, .. } if path == "LOCK" => continue,
+			Op::Truncate { ino, .. } | Op::Write { ino, .. } | Op::Fsync { ino, .. } => *ino,
 			other => return Err(format!("a refused open performed: {}", other.short())),
+		};
+		match ip::path_of_ino(ino) {
+			Some(p) if p == "LOCK" => {}
+			p => return Err(format!("a refused open performed: {} on {}", op.short(), p.unwrap_or_else(|| "an unknown file".into()))),
 		}
 	}
 	Ok(())
@@ -79,6 +68,7 @@ fn in_process(plan: &Plan) -> Judged {
 		ip::begin_session(dir.to_str().unwrap(), vec![]);
 		let mut opts = StoreOpts::default();
 		opts.flush_on_close = rng.chance(1, 2);
+		opts.memtable = 512 * 1024; // room for the multi-block commit of the mid-append leg
 		let rt = tokio::runtime::Builder::new_current_thread().enable_time().start_paused(true).build().unwrap();
 		let fail = |j: &mut Judged, c: &str, d: String| {
 			if j.violation.is_none() {
@@ -98,7 +88,7 @@ fn in_process(plan: &Plan) -> Judged {
 			let n = rng.range(3, 12);
 			for step in 0..n {
 				let i = rng.below(3) as usize;
-				match rng.below(14) {
+				match rng.below(16) {
 					0..=4 => {
 						// open attempt
 						if slots[i].is_some() {
@@ -194,6 +184,70 @@ fn in_process(plan: &Plan) -> Judged {
 								holder = None;
 							}
 							j.count("closes", 1);
+						}
+					}
+					14 | 15 => {
+						// an open attempt while the holder is in the MIDDLE of appending a
+						// multi-block record to its commit log (between two write(2) calls of
+						// one append): it must be refused and must not touch the log
+						let h = match holder {
+							Some(h) => h,
+							None => continue,
+						};
+						let t = match slots[h].as_ref() {
+							Some(t) => t,
+							None => continue,
+						};
+						let attempt: std::rc::Rc<std::cell::RefCell<Option<(bool, Vec<Op>)>>> = Default::default();
+						{
+							let attempt = attempt.clone();
+							let (opts2, dir2) = (opts.clone(), dir.clone());
+							let mut wal_writes = 0u32;
+							let at_write = rng.range(1, 2) as u32;
+							ip::set_io_hook(Some(Box::new(move |class: &str| {
+								if class != "wal" || attempt.borrow().is_some() {
+									return;
+								}
+								wal_writes += 1;
+								if wal_writes == at_write {
+									let from = ip::op_count();
+									let r = open_store(&opts2, &dir2);
+									let ops = ip::ops_since(from);
+									*attempt.borrow_mut() = Some((r.is_ok(), ops));
+								}
+							})));
+						}
+						written += 1;
+						let big = vec![b'm'; rng.range(70_000, 100_000) as usize];
+						let mut txn = t.begin().unwrap();
+						let _ = txn.set(format!("s{}", written).as_bytes(), big.as_slice());
+						let r = txn.commit().await;
+						ip::set_io_hook(None);
+						if let Err(e) = r {
+							fail(&mut j, "commit_failed", e.to_string());
+							return;
+						}
+						if let Some((opened, ops)) = attempt.borrow_mut().take() {
+							j.count("mid_append_open_attempts", 1);
+							if std::env::var("SKV_DEBUG").is_ok() {
+								eprintln!("mid-append attempt: opened={} ops={:?}", opened, ops.iter().map(|o| o.short()).collect::<Vec<_>>());
+							}
+							if opened {
+								fail(&mut j, "double_open", format!("step {}: an open attempt made in the middle of the holder's commit-log append succeeded", step));
+								return;
+							}
+							if let Err(d) = only_lock_touched(&ops) {
+								fail(&mut j, "refused_open_touched_data", format!("step {}: open attempt in the middle of the holder's commit-log append: {}", step, d));
+								return;
+							}
+						}
+						let rtxn = t.begin().unwrap();
+						match rtxn.get(format!("s{}", written).as_bytes()) {
+							Ok(Some(v)) if v == big => {}
+							other => {
+								fail(&mut j, "data_lost", format!("step {}: the value committed around a refused open reads back {:?}", step, other.map(|o| o.map(|v| v.len()))));
+								return;
+							}
 						}
 					}
 					10 => {
